@@ -143,8 +143,13 @@ def check_result(res, net, conf_pr, sigma_act):
         if abs(o["stdev"] - want_sd) > 2e-3 * max(want_sd, 1e-3) + 1e-3 * s_in * 0.01:
             dd.append("%s %s->%s: stdev of the adjusted observation %.6g, m0 * sqrt(q_L) = %.6g (f=%.3f, sigma=%.4g)" % (o["tag"], o.get("from"), o.get("to"), o["stdev"], want_sd, f, s_in))
         qrr = (1 - h) * (s_in / st["apriori"]) ** 2
-        if isinstance(o.get("qrr"), float) and abs(o["qrr"] - qrr) > 2e-3 * max(qrr, 0.1) + 6e-4 + 2.5e-5 * (s_in / st["apriori"]) ** 2 * 2:
-            dd.append("%s %s->%s: qrr %.3f, 1/p - q_L = %.4f" % (o["tag"], o.get("from"), o.get("to"), o["qrr"], qrr))
+        # qrr is printed with 8 significant digits, f with 3 decimals of a per cent: the comparison is made on the redundancy
+        # number r = p qrr = 1 - h, which has no unit and no scale (an absolute allowance on qrr itself hid a clamp of small
+        # weight coefficients to zero under large weights -- seed C09-c)
+        if isinstance(o.get("qrr"), float):
+            r_g = o["qrr"] / (s_in / st["apriori"]) ** 2
+            if abs(r_g - (1 - h)) > 3e-5 + 2e-6 * r_g:
+                dd.append("%s %s->%s: qrr %.8g i.e. redundancy p*qrr = %.6f, but 1 - (1 - f/100)^2 = %.6f (f=%.3f)" % (o["tag"], o.get("from"), o.get("to"), o["qrr"], r_g, 1 - h, f))
         if isinstance(o.get("std-residual"), float) and isinstance(o.get("qrr"), float) and qrr > 1e-3 and m0 > 0:
             v = o["adj"] - o["obs"]
             if ang:
@@ -209,7 +214,7 @@ def run(ctx):
             meta = {"dim": 2, "kind": "observed-coordinates"}
         conf_pr = ctx.rng.choice([0.95, 0.99, 0.9, 0.5, 0.999, round(ctx.rng.uniform(0.05, 0.995), 3)])
         sigma_act = ctx.rng.choice(["aposteriori", "apriori"])
-        sigma_apr = ctx.rng.choice([10.0, 1.0, 5.0, 2.5, 30.0])
+        sigma_apr = ctx.rng.choice([10.0, 1.0, 5.0, 2.5, 30.0, 1000.0, 1e5, 0.01])
         net["params"].update({"conf-pr": conf_pr, "sigma-act": sigma_act, "sigma-apr": sigma_apr})
         alg = ctx.rng.choice(enet.ALGS)
         o1, txt = enet.run_all(ctx, bdir, net, "c09_%d" % t, algs=[alg])
@@ -230,7 +235,7 @@ def run(ctx):
             bad += 1
             ctx.violation({"kind": "E:statistics", "gkf": txt, "algorithm": alg, "differences": dd[:8]}, "statistics inconsistent with the adjustment (%s): %s" % (alg, dd[0]))
         # sigma-apr metamorphic relation
-        k = ctx.rng.choice([0.5, 2.0, 3.0, 0.1])
+        k = ctx.rng.choice([0.5, 2.0, 3.0, 0.1, 1000.0, 1e-3])
         net2 = copy.deepcopy(net)
         net2["params"]["sigma-apr"] = sigma_apr * k
         o2, txt2 = enet.run_all(ctx, bdir, net2, "c09s_%d" % t, algs=[alg])
@@ -261,5 +266,5 @@ def run(ctx):
         if bad >= 4:
             break
     ctx.obligation(bad == 0, "E:statistics")
-    return ctx.finish(rule="generated noisy networks (incl. minimal ones with dof 0..2), random conf-pr in (0.05, 0.999), both sigma-act settings, sigma-apr in {1,2.5,5,10,30} "
+    return ctx.finish(rule="generated noisy networks (incl. minimal ones with dof 0..2), random conf-pr in (0.05, 0.999), both sigma-act settings, sigma-apr in {0.01,1,2.5,5,10,30,1000,1e5} "
                            "and its scaling by k; every XML result is a non-trivial case; distinct by content")
